@@ -665,6 +665,115 @@ pub fn texts_case(mut i: u64) -> IgsCase {
 }
 
 // ---------------------------------------------------------------------------------------------------------
+// fill_states part: commands whose work depends on what is on the canvas (flood fill, grab / put) on prepared canvases
+
+/// shape placements on a w x h screen: interior, touching each edge, each corner, crossing the lower / right edge and
+/// the lower right corner, covering the whole screen, covering more than the screen
+pub fn placements(w: u32, h: u32) -> [(u32, u32, u32, u32); 15] {
+    [
+        (100, 60, 200, 120),
+        (100, 0, 200, 50),
+        (100, 150, 200, h - 1),
+        (0, 60, 80, 120),
+        (240, 60, w - 1, 120),
+        (0, 0, 60, 40),
+        (w - 61, 0, w - 1, 40),
+        (0, h - 41, 60, h - 1),
+        (w - 61, h - 41, w - 1, h - 1),
+        (100, 150, 200, h + 50),
+        (240, 60, w + 60, 120),
+        (w - 61, h - 41, w + 60, h + 50),
+        (0, 0, w - 1, h - 1),
+        (0, 0, w + 50, h + 50),
+        (0, h - 1, w - 1, h - 1),
+    ]
+}
+
+/// seed points for a shape with bounding box b on a w x h screen: inside, just outside (left, below), on every edge
+/// row / column, the four corners, one beyond the lower and the right edge
+pub fn seeds(b: (u32, u32, u32, u32), w: u32, h: u32) -> [(u32, u32); 13] {
+    let (cx, cy) = ((b.0 + b.2) / 2, (b.1 + b.3) / 2);
+    [
+        (cx, cy),
+        (b.0.saturating_sub(1), cy),
+        (cx, b.3 + 1),
+        (cx, 0),
+        (cx, h - 1),
+        (0, cy),
+        (w - 1, cy),
+        (0, 0),
+        (w - 1, 0),
+        (0, h - 1),
+        (w - 1, h - 1),
+        (cx, h),
+        (w, cy),
+    ]
+}
+
+const FILL_PENS: [u32; 4] = [0, 1, 2, 15];
+const SHAPE_PENS: [u32; 4] = [0, 1, 2, 3];
+const N_PREPS: u64 = 1 + 3 * 15 * 4;
+const N_SETTINGS: u64 = 4 * 2;
+const N_FINALS: u64 = 13 + 4;
+
+pub fn fill_states_total() -> u64 {
+    2 * N_PREPS * N_SETTINGS * N_FINALS
+}
+
+/// [resolution switch] [pen, shape] [fill pen, fill pattern] final command(s)
+pub fn fill_states_case(mut i: u64) -> IgsCase {
+    let fin = i % N_FINALS;
+    i /= N_FINALS;
+    let setting = i % N_SETTINGS;
+    i /= N_SETTINGS;
+    let prep = i % N_PREPS;
+    let medium = i / N_PREPS == 1;
+    let (w, h) = if medium { (640, 200) } else { (320, 200) };
+    let mut segs = Vec::new();
+    if medium {
+        segs.push(mk(b'R', &[1, 0], b""));
+    }
+    let mut bbox = (100, 60, 200, 120);
+    if prep > 0 {
+        let k = prep - 1;
+        let pen = SHAPE_PENS[(k % 4) as usize];
+        bbox = placements(w, h)[((k / 4) % 15) as usize];
+        let (x0, y0, x1, y1) = bbox;
+        match k / 60 {
+            0 => {
+                segs.push(mk(b'C', &[2, pen], b""));
+                segs.push(mk(b'Z', &[x0, y0, x1, y1], b""));
+            }
+            1 => {
+                segs.push(mk(b'C', &[1, pen], b""));
+                segs.push(mk(b'L', &[x0, y0, x1, y1], b""));
+            }
+            _ => {
+                segs.push(mk(b'C', &[2, pen], b""));
+                segs.push(mk(b'Q', &[(x0 + x1) / 2, (y0 + y1) / 2, (x1 - x0) / 2, (y1 - y0) / 2], b""));
+            }
+        }
+    }
+    segs.push(mk(b'C', &[2, FILL_PENS[(setting % 4) as usize]], b""));
+    if setting / 4 == 1 {
+        segs.push(mk(b'A', &[2, 5, 1], b""));
+    }
+    if fin < 13 {
+        let (sx, sy) = seeds(bbox, w, h)[fin as usize];
+        segs.push(mk(b'F', &[sx, sy], b""));
+    } else {
+        // grab the shape (clipped or not), put it back at the origin / across the lower right corner, replace or XOR
+        let k = fin - 13;
+        segs.push(mk(b'M', &[if k % 2 == 0 { 1 } else { 3 }], b""));
+        segs.push(mk(b'G', &[1, if k % 2 == 0 { 3 } else { 6 }, bbox.0, bbox.1, bbox.2, bbox.3], b""));
+        let (dx, dy) = if k / 2 == 0 { (0, 0) } else { (w - 10, h - 10) };
+        segs.push(mk(b'G', &[2, if k % 2 == 0 { 3 } else { 6 }, dx, dy], b""));
+        segs.push(mk(b'F', &[dx + 1, dy + 1], b""));
+    }
+    IgsCase { prefix: 0, segs }
+}
+
+// ---------------------------------------------------------------------------------------------------------
 // random part
 
 fn value() -> BoxedStrategy<String> {
@@ -843,7 +952,18 @@ pub fn seg_strategy() -> BoxedStrategy<IgsSeg> {
 }
 
 pub fn case_strategy(max_segs: usize) -> BoxedStrategy<IgsCase> {
-    (prop_oneof![3 => Just(0u8), 1 => Just(1u8)], vec(seg_strategy(), 1..=max_segs)).prop_map(|(prefix, segs)| IgsCase { prefix, segs }).boxed()
+    // one segment, or (1 in 12) a "prepare the canvas, choose the fill, fill / grab" group taken from the fill_states grid
+    let group = prop_oneof![
+        11 => seg_strategy().prop_map(|s| vec![s]),
+        1 => any::<u32>().prop_map(|i| fill_states_case(i as u64 % fill_states_total()).segs),
+    ];
+    (prop_oneof![3 => Just(0u8), 1 => Just(1u8)], vec(group, 1..=max_segs))
+        .prop_map(move |(prefix, groups)| {
+            let mut segs = groups.concat();
+            segs.truncate(max_segs + 4);
+            IgsCase { prefix, segs }
+        })
+        .boxed()
 }
 
 /// keep a loop inside its own segment: the declared count never exceeds the parameters that follow
